@@ -33,7 +33,10 @@ IMPL = os.path.join(tlc.SPECS, 'FactoryImpl.tla')
 TRACE = os.path.join(tlc.SPECS, 'FactoryTrace.tla')
 HIST_INVS = ['C15_Same', 'C15_Inj', 'C15_Acts', 'C15_ErrorOK']
 FUNC_NAMES = {'f1': 'f', 'f2': 'f', 'f3': 'f', 'lam1': '<lambda>', 'lam2': '<lambda>', 'lam3': '<lambda>', 'g': 'g', 'h': 'h'}
-FAC_NAMES = {'F1': 'fac', 'F2': 'fac', 'G1': 'gac'}
+FAC_NAMES = {'F1': 'fac', 'F2': 'fac', 'G1': 'gac', 'H1': 'hac'}
+# a factory that carries dependencies of its own (as RunTaskFactory.from_task does): every task it makes depends on them
+# in addition to the dependencies given to make(); requests on it list the union, the real call passes only the rest
+FAC_OWN = {'H1': (['t3'], ['t2'])}
 KEYS = ['result', 'other']
 
 
@@ -80,7 +83,10 @@ class World:
         self.bases = {}
         for b in ('t1', 't2', 't3'):
             self.bases[b] = PythonTask(b, (lambda b_: (lambda: ({b_: {'result': b_}}, TaskStatus.DONE)))(b))
-        self.facs = {F: RunTaskFactory.from_executable('echo', name=FAC_NAMES[F], default_args=[F]) for F in FAC_NAMES}
+        self.facs = {F: RunTaskFactory.from_executable('echo', name=FAC_NAMES[F], default_args=[F],
+                                                       **({'deps': [self.bases[t] for t in FAC_OWN[F][0]],
+                                                           'soft_deps': [self.bases[t] for t in FAC_OWN[F][1]]} if F in FAC_OWN else {}))
+                     for F in FAC_NAMES}
         self.tasks = []          # identity classes: class k = self.tasks[k - 1]
         self.creator = {}        # class -> the request it was first returned for
         self.uses = {}           # class -> the Use object that generated it (for Use.map)
@@ -174,8 +180,10 @@ class World:
             else:
                 use = None
                 fac = self.facs[req['fac']]
+                own_h, own_s = FAC_OWN.get(req['fac'], ([], []))
                 task = fac.make(name=None if req['name'] == '-' else req['name'], extra_args=list(req['args']),
-                                deps=[self._obj(t) for t in req['deps']], soft_deps=[self._obj(t) for t in req['sdeps']])
+                                deps=[self._obj(t) for t in req['deps'] if t not in own_h],
+                                soft_deps=[self._obj(t) for t in req['sdeps'] if t not in own_s])
         except Exception as ex:  # pylint: disable=broad-except
             return 0, type(ex).__name__
         k = self._class_of(task)
@@ -815,6 +823,9 @@ def random_request(rng, world):
         req = dict(kind='make', func='-', pos=[], kw=[], soft=False, fac=rng.choice(list(FAC_NAMES)), name=rng.choice(['-', '-', 'n1', 'n2']),
                    args=rng.choice([[], ['a'], ['b'], ['a', 'b']]), deps=sorted(rng.sample(['t1', 't2', 't3'], rng.choice([0, 0, 1, 2]))),
                    sdeps=sorted(rng.sample(['t1', 't2', 't3'], rng.choice([0, 0, 1]))))
+    if req['kind'] == 'make' and req['fac'] in FAC_OWN:
+        req['deps'] = sorted(set(req['deps']) | set(FAC_OWN[req['fac']][0]))
+        req['sdeps'] = sorted(set(req['sdeps']) | set(FAC_OWN[req['fac']][1]))
     req['kw'] = sorted(req['kw'], key=lambda x: x['kw'])
     style = rng.choice(['stack', 'stack', 'ctor', 'using', 'kwlast', 'map', 'branch', 'branch'])
     return req, style
